@@ -16,9 +16,13 @@
 (*   arg ::= [k |-> "pieces", c |-> pieces]                                    *)
 (*         | [k |-> "num", sym, disp, idx, tok]  a JSON number: its lexeme, how *)
 (*            Display shows it, its anchor index (ranges), its token (plurals) *)
-EXTENDS Value, FallbackOps, RangesOps, PluralsOps, Json, IOUtils
+EXTENDS Value, FallbackOps, RangesOps, PluralsOps, FormatterOps, Json, IOUtils
 
 \* foreign key to the key whose path is spelled tosym; key ids are the Str() of the path symbols ("a", "gDOTs")
+\* a variable with a formatter: {{ n, kind(written args) }}.  Substitution leaves the formatter of a variable it does not
+\* replace exactly as declared
+VarF(n, kind, written) == [k |-> "var", n |-> n, kind |-> kind, written |-> written]
+FmtOfVar(p) == IF "kind" \in DOMAIN p THEN Meaning(p.kind, p.written) ELSE NoFormatter
 Fk(tosym, args) == [k |-> "fk", to |-> Str(tosym), tosym |-> tosym, args |-> args]
 Node(e)        == [k |-> "node", v |-> e]
 ArgP(nsym, c)  == [n |-> Str(nsym), nsym |-> nsym, a |-> [k |-> "pieces", c |-> c]]
@@ -183,7 +187,7 @@ PiecesX(v) ==
     LET c == CanonX(v) IN
     [i \in DOMAIN c |->
         IF c[i].k = "text" THEN [k |-> "text", s |-> c[i].s, tab |-> c[i].s]
-        ELSE IF c[i].k = "var" THEN [k |-> "var", n |-> Str(c[i].n), f |-> NoFormatter]
+        ELSE IF c[i].k = "var" THEN [k |-> "var", n |-> Str(c[i].n), f |-> FmtOfVar(c[i])]
         ELSE IF c[i].k = "comp" THEN [k |-> "comp", n |-> Str(c[i].n), c |-> PiecesX(c[i].c)]
         ELSE IF c[i].v.k = "ranges"
              THEN [k |-> "ranges", ty |-> c[i].v.ty, ck |-> Str(c[i].v.ck), b |-> [j \in DOMAIN c[i].v.b |-> PiecesX(c[i].v.b[j].v)]]
